@@ -56,6 +56,14 @@ pub const OPS: [&str; 22] = [
     "verify-valid-under-other-context",
 ];
 
+fn short(s: &str) -> String {
+    if s.len() > 48 {
+        format!("{}…({} chars)", &s[..48], s.len())
+    } else {
+        s.to_string()
+    }
+}
+
 fn digest(parts: &[&[u8]]) -> Vec<u8> {
     use sha3::{Digest, Sha3_256};
     let mut h = Sha3_256::new();
@@ -338,6 +346,20 @@ pub fn child_hist(args: &[String]) -> i32 {
 
 fn hist_in_child(seq: &[usize]) -> Result<Vec<String>, String> {
     let exe = std::env::current_exe().map_err(|e| e.to_string())?;
+    hist_in_child_of(&exe, seq)
+}
+
+/// The other build of this harness + library (run.sh: `BPPMC_OTHER_BUILD`), if there is one
+fn other_build() -> Option<std::path::PathBuf> {
+    let p = std::path::PathBuf::from(std::env::var("BPPMC_OTHER_BUILD").ok()?);
+    if p.is_file() {
+        Some(p)
+    } else {
+        None
+    }
+}
+
+fn hist_in_child_of(exe: &std::path::Path, seq: &[usize]) -> Result<Vec<String>, String> {
     let p: Vec<String> = seq.iter().map(|x| x.to_string()).collect();
     let out = Command::new(exe)
         .args(["child", "hist", &p.join(",")])
@@ -790,9 +812,9 @@ fn source_scan() -> Value {
 }
 
 pub fn run(rep: &mut Report) {
-    rep.rule = "(a) every sequence over the 21-op alphabet {a batch over two parameter sets that disagree on the bit length (the error text is the result), a batch of two aggregation sizes with two different defects (the full error text is the result), a prove refused for its promise, build params for 16 parties, degree-6 seeded prove, recovery (right / other seed) from a degree-6 proof made elsewhere, build params x3, prove A/B, prove with a witness that does not open the commitment, verify valid/invalid, seeded recover, batch of two, batch abandoned at \
+    rep.rule = "(a) every sequence over the 22-op alphabet {the valid pair verified under a transcript it was not made under, a batch over two parameter sets that disagree on the bit length (the error text is the result), a batch of two aggregation sizes with two different defects (the full error text is the result), a prove refused for its promise, build params for 16 parties, degree-6 seeded prove, recovery (right / other seed) from a degree-6 proof made elsewhere, build params x3, prove A/B, prove with a witness that does not open the commitment, verify valid/invalid, seeded recover, batch of two, batch abandoned at \
                 its second member (wrong round count / undecodable point), pedersen gens, drop-all} of length <= 3 (thorough 4), one fresh process per sequence, each op's serialised result against \
-                its result alone in a fresh process (and a second fresh process); (b) every pair (thorough: also triples) of ops {prove A, \
+                its result alone in a fresh process (and a second fresh process); (a') every op alone in a fresh process of the other build of the same sources (debug assertions and overflow checks off), against the same baseline; (b) every pair (thorough: also triples) of ops {prove A, \
                 prove B, verify valid, verify invalid, clone+drop params, build other capacity} on threads sharing one parameter object (plus a 160-member batch with two different defects racing a short verification, one preemption), \
                 every schedule with <= 2 (thorough 3) preemptions over the merlin / group-backend scheduling points, on F and Ristretto; \
                 (c) racing first use of the cached generator arrays by a prove and a verify, one fresh process per schedule"
@@ -842,6 +864,38 @@ pub fn run(rep: &mut Report) {
         }
     }
     rep.validated += OPS.len() as u64;
+    // (a') the same op alone in a fresh process of the OTHER build of the same sources (debug assertions and overflow checks
+    // off / on): the build profile is neither an argument nor the RNG stream
+    match other_build() {
+        None => rep.note("cross_build", json!("not run: BPPMC_OTHER_BUILD is not set (run.sh sets it)")),
+        Some(exe) => {
+            let mut compared = 0u64;
+            for k in 0..OPS.len() {
+                if baseline[k].is_empty() {
+                    continue;
+                }
+                match hist_in_child_of(&exe, &[k]) {
+                    Ok(a) if a.len() == 1 => {
+                        compared += 1;
+                        if a[0] != baseline[k] {
+                            rep.violations.push((
+                                format!("C18/cross-build/{}", OPS[k]),
+                                format!(
+                                    "op {} alone in a fresh process gives different results in the two builds of the same sources (debug assertions and overflow checks on / off): {} vs {}",
+                                    OPS[k],
+                                    short(&baseline[k]),
+                                    short(&a[0])
+                                ),
+                            ));
+                        }
+                    },
+                    other => rep.machinery.push(format!("cross-build child failed for {}: {:?}", OPS[k], other.err())),
+                }
+            }
+            rep.validated += compared;
+            rep.note("cross_build", json!({"other_build": exe.display().to_string(), "ops_compared": compared}));
+        },
+    }
     let t0 = rep.wall();
     rep.explore("C18", history_cases(if thorough { 4 } else { 3 }, Arc::new(baseline)));
     let t1 = rep.wall();
